@@ -49,11 +49,11 @@ def generate(ctx):
 _objs = {}
 def _run(c, sig, fs, fr):
     from bycycle.features import compute_features
-    if id(c) not in _objs:       # both runs of one case use the SAME option objects
-        _objs.clear()
+    if _objs.get('owner') is not c:      # identity of the case dict (id() values are reused after garbage collection)
+        _objs['owner'] = c       # both runs of one case use the SAME option objects
         fk = None if c['n_cycles'] is None else {'n_cycles': c['n_cycles']}
-        _objs[id(c)] = (dict(c['th']) if c['th'] else {}, implutil.fe_kwargs(fk, c['boundary'], None))
-    th, fek = _objs[id(c)]
+        _objs['v'] = (dict(c['th']) if c['th'] else {}, implutil.fe_kwargs(fk, c['boundary'], None))
+    th, fek = _objs['v']
     return implutil.quiet(compute_features, sig, fs, fr, center_extrema=c['center'], burst_method=c['method'], threshold_kwargs=th, find_extrema_kwargs=fek)
 
 def evaluate(ctx, cases):
